@@ -243,6 +243,12 @@ class TcpConnection(object):
             return
         while self.__processSend():
             pass
+        if self.__writeBuffer and self.__state == CONNECTION_STATE.CONNECTED:
+            # The socket did not take everything: ask for a WRITE event, the WRITE branch of
+            # __processConnection continues the flush and drops the interest once the buffer is empty.
+            self.__poller.subscribe(self.__fileno,
+                                     self.__processConnection,
+                                     POLL_EVENT_TYPE.READ | POLL_EVENT_TYPE.WRITE | POLL_EVENT_TYPE.ERROR)
 
     def __processSend(self):
         if not self.__writeBuffer:
